@@ -78,6 +78,22 @@ pub fn gen(tier: &str, r: &mut Rng) -> Vec<String> {
             out.push(format!("c01 corrupt {} {} {} {}", ["Strict", "Medium", "Loose"][r.below(3)], name, ["blank", "garbage", "truncate"][how], enc_bytes(t.as_bytes())));
         }
     }
+    // the same convention on short texts (compared with the Lean reader model as well): serials 99998, 99999, 0, 1 …
+    for k in 0..budget(tier, 6, 60) {
+        let mut rr = Rng::new(1000 + k as u64, "wrap-small");
+        let mut lines = Vec::new();
+        let n = 3 + rr.below(6);
+        let start = 99_999 - rr.below(3);
+        let rstart = 9_999 - rr.below(3) as i64;
+        for i in 0..n {
+            let a = AtomRec { het: false, serial: (start + i) % 100000, name: "CA".into(), alt: ' ', resname: "GLY".into(), chain: 'A', resseq: (rstart + i as i64) % 10000, icode: ' ',
+                x: i as i64 * 1000, y: 0, z: 0, occ: 1_000_000, b: 0, seg: String::new(), element: "C".into(), charge: 0, aniso: None };
+            lines.push(pdbtext::atom_line(&a, &mut rr, false));
+            if rr.chance(1, 2) { lines.push(pdbtext::anisou_line(&a, &[10 + i as i64, 2, 3, -4, 5, -6])); }
+        }
+        lines.push("END".into());
+        out.push(format!("c01 wf Loose 000 {}", enc_bytes((lines.join("\n") + "\n").as_bytes())));
+    }
     // serial numbers wrapping past 99999 (atoms) and 9999 (residues)
     for k in 0..budget(tier, 1, 3) {
         let n_atoms = 100_050 + 7 * k;
@@ -89,6 +105,10 @@ pub fn gen(tier: &str, r: &mut Rng) -> Vec<String> {
             let a = AtomRec { het: false, serial: serial % 100000, name: "CA".into(), alt: ' ', resname: "GLY".into(), chain: 'A', resseq: (res % 10000) as i64, icode: ' ',
                 x: (i % 1000) as i64 * 1000, y: 0, z: 0, occ: 1_000_000, b: 0, seg: String::new(), element: "C".into(), charge: 0, aniso: None };
             lines.push(pdbtext::atom_line(&a, &mut rr, false));
+            // anisotropic records before and after the wrap (they name the atom by its column value)
+            if i % 9973 == 0 || (i >= 99_990 && i % 4 == 0) {
+                lines.push(pdbtext::anisou_line(&a, &[(i % 9000) as i64 + 1, 2, 3, -4, 5, -6]));
+            }
         }
         lines.push("END".into());
         out.push(format!("c01 wrap Loose {} {}", n_atoms, enc_bytes((lines.join("\n") + "\n").as_bytes())));
